@@ -59,6 +59,8 @@ def apply_actions(
         )
 
     accumulative_changed_state = current_state.copy()
+    # the result is a successor state even when no agent acts (a copy keeps the initial-state mark).
+    accumulative_changed_state.is_init = False
     for action_call in executed_actions:
         action = domain.actions[action_call.name]
         operator = Operator(
